@@ -21,8 +21,8 @@ EXPLANATION = ("direct exploration with fresh classes per execution; "
                "reference = pristine baseline computed in a separate fresh "
                "class hierarchy + identity walk for sharing")
 BOUNDS = {"quick": "depth 2 exhaustive over ~115 events (19 default kinds), depth 3 from the "
-                   "deduplicated frontier over a 40-event sub-menu",
-          "thorough": "depth 3 over the full menu with dedup"}
+                   "deduplicated frontier over a 40-event sub-menu; two focus groups of interdependent traits at depth 4",
+          "thorough": "depth 3 over the full menu with dedup; focus groups at depth 5"}
 ASSUMPTIONS = ["default kinds 'object' and 'disallow' not crossed"]
 MIN_OUTCOMES = {t: ["default-read", "siblings-checked", "dyn-default-once",
                     "class-definitions-checked", "del-then-read"]
